@@ -283,7 +283,7 @@ func c15Units(t fw.Tier) (units [][3]int) {
 }
 
 func init() {
-	fw.Register(addTok(tokFramesC15, &fw.Prop{
+	register(addTok(tokFramesC15, &fw.Prop{
 		ID: "C15",
 		Rule: "all sequences of exactly D operations (every shorter history is a prefix of one of them, and a run prints result, contents and length after each operation) over 27 operations on one array " +
 			"(push of a number / string / array / unset value, pop, popfirst, reads and writes at 0, -1 and length, length, contains of a number / string / unset value, sort, a push / index store into the result of sort, a push of the null read from beyond the end, a store two past the end and a store into the second-last slot), with the array held by a variable, inside the input document ($.arr, also compared through -o), inside an object (o.k), inside another array (m[0]) as a literal rebuilt for every element of the input, as $.t of every record of a document with several empty arrays and as $.arr of every value of a stream and in a variable that starts with strings and numbers mixed (shorter histories); 12 programs that keep arrays of earlier documents / records / stream values while later ones are read; 44 fixed arrays of 5-40 elements with equal sort keys but distinguishable values (stability at every length);  " +
